@@ -25,13 +25,14 @@ from sexp import Atom, opt
 MODEL = "ident"
 SHRINKABLE = True
 RULE = ("op sequences over 3 glyphs (in a font, or stand-alone) + font guidelines + a limbo of removed objects; "
-        "identifiers drawn from a pool of 6 on a random subset of objects (high collision rate); ~70 op kinds: "
+        "identifiers drawn from a pool of 6 on a random subset of objects (high collision rate); 53 op kinds: "
         "insert/re-insert/remove/clear of contours, components, anchors, guidelines; point insert/remove; "
         "Contour.clear/reverse/removeSegment/split/setStartPoint; identifier setters and generateIdentifier* with "
         "scripted candidates; pen drawing with/without skipConflictingIdentifiers; decompose (nested); "
         "copyDataFromGlyph; Layer.insertGlyph; (de)serialisation; external edit + reloadGlyphs; reopen (lazy "
-        "loading); non-trivial = at least one successful identifier-changing op AND at least one rejected "
-        "duplicate or generated identifier; distinct = distinct op lists")
+        "loading); plus every point-type pattern up to length 4 (sampled: 5) x every point-list edit; plus the "
+        "corpus of regression/witness histories; non-trivial = at least one successful registry-changing op AND at "
+        "least one rejected duplicate or generated identifier; distinct = distinct op lists")
 ASSUMPTIONS = [
     "identifiers of points are given at construction or by Contour.generateIdentifierForPoint (Point.identifier "
     "is a plain attribute of a parent-less object; writing it directly bypasses every registry by design)",
@@ -327,7 +328,7 @@ def gen_shape_cases(rng, tier):
 
 
 def generate(rng, tier):
-    n, maxlen = (700, 22) if tier == "quick" else (12000, 60)
+    n, maxlen = (2000, 25) if tier == "quick" else (12000, 60)
     for _ in range(n):
         yield gen_case(rng, maxlen)
     for c in gen_shape_cases(rng, tier):
